@@ -315,7 +315,15 @@ mod worker {
                     self.quic_connection
                         .close(varint_w2q(error_code.to_code()), b"");
                 }
-                DriverError::NotConnected => (),
+                DriverError::NotConnected => {
+                    // The connection is still alive: every application handle has been dropped.
+                    // Streams still being processed keep the QUIC connection referenced, so
+                    // close it explicitly (as dropping the last handle would).
+                    if self.quic_connection.close_reason().is_none() {
+                        self.quic_connection
+                            .close(quinn::VarInt::from_u32(0), b"");
+                    }
+                }
             }
 
             self.driver_result.set(error);
